@@ -122,6 +122,13 @@ Definition c13_pb (ps : pstate) (e : nevent) (o : nobs) : bool :=
          then forallb (fun b => if live_server ps b && p_joined (pget ps b) && negb (Nat.eqb b j)
                                 then mem b (main_of tabs j) || mem b (b_stored o) else true) (all_nodes ps)
          else true
+     | EJoin _ boots =>
+         (* the bootstrap lookup is a lookup as well: a joiner given a live server has queried every joined server *)
+         let j := (length ps - 1)%nat in
+         if existsb (live_server ps) boots
+         then forallb (fun b => if live_server ps b && p_joined (pget ps b) && negb (Nat.eqb b j)
+                                then mem b (main_of tabs j) else true) (all_nodes ps)
+         else true
      | _ => true
      end.
 
